@@ -173,9 +173,53 @@ class P(Play):
         self.stats["fuzzed_attribute_names"] = n_attr
         if n_attr:
             self.nontrivial = True
+        sm = None  # (no local reference either)
+        await self.trigger_outlives_machine_variable(ctx)
         # a class-level recorder set for the mixin style must not leak into other cases
         if "H" in vars(self.rendered.cls):
             del self.rendered.cls.H
+
+    async def trigger_outlives_machine_variable(self, ctx):
+        """A trigger taken from the machine (item of events / bound onto another object) is an entry point of its own: it keeps
+        working when the caller no longer holds the machine in a variable."""
+        import gc
+
+        it = ctx.interp
+        if it.is_async or self.cfg.get("mixin") or it.state is None or self.driver != "sync":
+            return
+        ev = next((e for t in self.spec["trans"] if t["src"] == it.state for e in t["events"]), None)
+        if ev is None or "bound" not in ctx.extra:
+            return
+        model = ctx.sm.model
+        trig = [e for e in ctx.sm.events if e == ev][0] if self.case.get("fuzz_names") else getattr(ctx.extra["bound"], ev)
+        Hh = ctx.H
+        ctx.sm = None
+        ctx.extra.clear()
+        gc.collect()
+        Hh.log.clear()
+        try:
+            obs = ("ok", trig())
+        except Exception as e:
+            obs = ("exc", e)
+        if obs[0] == "exc" and type(obs[1]).__name__ == "RuntimeError":
+            raise Fail("orphan-trigger", f"a trigger for {ev!r} taken from the machine stopped working once the machine was no longer referenced: {obs[1]}")
+        it.begin(list(Hh.log))
+        from ..core import ExpBoom, ExpTNA, Mismatch
+
+        try:
+            try:
+                exp = ("ok", it.send(ev))
+            except (ExpBoom, ExpTNA) as e:
+                exp = ("exc", e)
+            it.finish()
+        except Mismatch as m:
+            raise Fail("orphan-trigger", f"trigger {ev!r} called without a reference to the machine: {m.detail}")
+        if exp[0] != obs[0]:
+            raise Fail("orphan-trigger", f"trigger {ev!r} called without a reference to the machine gave {obs!r}, expected {exp!r}")
+        stored = getattr(model, self.field, None)
+        if repr(stored) != repr(it.svalue(it.state)):
+            raise Fail("orphan-trigger", f"after the trigger the model holds {stored!r}, expected {it.svalue(it.state)!r}")
+        self.labels.add("trigger-without-machine-reference")
 
 
 @st.composite
